@@ -674,7 +674,7 @@ var degenerateClasses = []string{
 	"pl-absent", "pl-0", "pl-1", "pl-16383", "pl-16385", "pl-2^32-16384", "pl-2^32", "pl-negative",
 	"pieces-20k+1", "pieces-20k-1", "pieces-empty", "pieces-too-few", "pieces-too-many",
 	"flen--1", "flen--2^40", "flen-2^62", "flen-2^63-1", "flen-sum-wraps", "flen-negative-cancels",
-	"length-and-files", "neither-length-nor-files", "length-0", "length-negative", "zero-length-consistent", "all-files-empty-consistent",
+	"length-and-files", "neither-length-nor-files", "length-0", "length-negative", "zero-length-consistent", "all-files-empty-consistent", "length-small-negative-no-hashes",
 	"path-empty-list", "path-missing", "name-absent", "name-empty", "files-empty-list",
 }
 
@@ -744,6 +744,19 @@ func applyDegenerate(t *rapid.T, m *model, c string) {
 		m.single, m.length, m.hasFiles = false, nil, true
 		m.files = []mfile{{path: []string{"e0"}, length: 0}, {path: []string{"d", "e1"}, length: 0}}
 		m.pieces = []byte{}
+	case "length-small-negative-no-hashes":
+		// a negative length that rounds to "no pieces at all"
+		m.single, m.hasFiles, m.files = true, false, nil
+		m.length = rapid.SampledFrom([]int64{-1, -100, -16383, -16384, -32766}).Draw(t, "neglen")
+		m.pieces = []byte{}
+	case "length-around-2^32-blocks":
+		// 2^32 blocks of 16 KiB: where a 32-bit block count wraps
+		m.single, m.hasFiles, m.files = true, false, nil
+		m.pl = int64(1 << 31)
+		total := int64(1)<<46 + rapid.SampledFrom([]int64{-16384, -16383, -1, 0, 1, 16384}).Draw(t, "around")
+		m.length = total
+		np := (total + 1<<31 - 1) >> 31
+		m.pieces = gen.Fill(9, int(np)*20)
 	case "length-negative":
 		m.single, m.hasFiles, m.files = true, false, nil
 		m.length = int64(-100000)
@@ -1333,4 +1346,34 @@ func FuzzReadMagnet(f *testing.F) {
 		}
 		stats.Case("fuzz-magnet", false)
 	})
+}
+
+// The boundary at 2^32 blocks of 16 KiB (64 TiB), where a 32-bit block count
+// wraps: whatever is accepted there has a self-consistent geometry (exactly
+// 2^32-1 blocks is left out: it is accepted, and its bookkeeping takes 4 GiB).  (Six
+// totals; the metainfo needs 650 KB of piece hashes, too heavy for the
+// generative test.)
+func TestC13BlockCountBoundary(t *testing.T) {
+	for _, around := range []int64{-16383, -8192, -1, 0, 1, 16384} {
+		m := baseModel()
+		m.pl = int64(1 << 31)
+		total := int64(1)<<46 + around
+		m.length = total
+		np := (total + 1<<31 - 1) >> 31
+		m.pieces = gen.Fill(9, int(np)*20)
+		file, _ := buildPlain(m)
+		tt, err, pv := read(file)
+		if pv != nil {
+			t.Fatalf("total length 2^46%+d: ReadTorrent panicked: %v", around, pv)
+		}
+		out := "rejected"
+		if err == nil {
+			out = "accepted"
+			if f := geometry(tt); f != "" {
+				t.Fatalf("total length 2^46%+d (2^32 blocks%+d bytes) accepted with inconsistent geometry: %s", around, around, f)
+			}
+		}
+		stats.Case(fmt.Sprintf("block-boundary/%d/%s", around, out), true, "block-count-boundary:"+out)
+	}
+	stats.Exhaustive("total lengths around 2^32 blocks")
 }
